@@ -155,8 +155,10 @@ class FortranExpressionMapper(_PowerParenthesizingMixin, StringifyMapper):
 
     def map_logical_not(self, expr, enclosing_prec):
         from pymbolic.mapper.stringifier import PREC_UNARY
+        # (PREC_POWER for the operand: '.not. .not. x' is not valid Fortran,
+        # a negation in operand position needs parentheses.)
         return self.parenthesize_if_needed(
-                ".not. " + self.rec(expr.child, PREC_UNARY),
+                ".not. " + self.rec(expr.child, PREC_POWER),
                 enclosing_prec, PREC_UNARY)
 
     def map_logical_or(self, expr, enclosing_prec):
